@@ -324,6 +324,14 @@ fn run_shard(sh: &Shard, tier: Tier, f: &mut dyn FnMut(Group)) {
                 vec![(V::Null, "null"), (V::Bool(true), "bool"), (V::Bool(false), "bool")];
             scalars.extend(ints().into_iter().map(|(i, c)| (V::Int(i), c)));
             scalars.extend(strings(tier).into_iter().map(|(s, c)| (V::Str(s), c)));
+            // values whose canonical form is as long as / longer than the 65 535-byte event limit: canonical
+            // JSON itself has no size limit (only the event hash functions do)
+            for total in [65_535usize, 65_536, 65_537, 131_072] {
+                let v = V::obj(vec![("k", V::Str("a".repeat(total - 8)))]);
+                f(value_group(format!("large/obj/{total}-bytes"), &v, &[(0, 0)], false));
+            }
+            let v = V::obj(vec![("k", V::Arr((0..33_000).map(|_| V::Int(1)).collect()))]);
+            f(value_group("large/obj-arr/about-66000-bytes".into(), &v, &[(0, 0)], false));
             for (s, cls) in &scalars {
                 for (ctx, v) in contexts(s) {
                     f(value_group(format!("scalar/{ctx}/{cls}"), &v, &all_styles(), true));
@@ -491,7 +499,8 @@ fn eval(g: &Group, t: &mut Tally) -> (Vec<(String, String)>, Vec<String>) {
                 // the canonical string depends only on the value: formatting parameters of the
                 // formatter (width, fill, alignment, precision, alternate, sign) must not change it
                 t.transitions += 1;
-                let n = ser.chars().count();
+                // (format widths / precisions are limited to u16 by the formatting machinery)
+                let n = ser.chars().count().min(65_000);
                 let specs = catch(|| {
                     vec![
                         ("width", format!("{val:w$}", w = n + 3)),
